@@ -185,9 +185,10 @@ class Analysis:
         if isinstance(v, Ref) and v.oid in s.heap:
             o = s.heap[v.oid]
             if o["kind"] == "list":
-                for it in o["items"]:
+                ist = o.get("item_states") or {}
+                for idx, it in enumerate(o["items"]):
                     if isinstance(it, Ref):
-                        bs = interp.birth.get(it.oid, s)
+                        bs = ist.get(idx) or interp.birth.get(it.oid, s)
                         if it.oid not in bs.heap:
                             bs = s
                         self._collect(entry, it, bs, interp, out, parent, seen)
@@ -206,9 +207,10 @@ class Analysis:
                 (parent.children if parent is not None else out).append(h)
                 ch = o["fields"].get("children")
                 if isinstance(ch, Ref) and ch.oid in s.heap:
-                    for c in s.heap[ch.oid]["items"]:
+                    cist = s.heap[ch.oid].get("item_states") or {}
+                    for cidx, c in enumerate(s.heap[ch.oid]["items"]):
                         if isinstance(c, Ref):
-                            cs = s if c.oid in s.heap else interp.birth.get(c.oid, s)
+                            cs = cist.get(cidx) or (s if c.oid in s.heap else interp.birth.get(c.oid, s))
                             self._collect(entry, c, cs, interp, h.children, h, seen)
                     if s.heap[ch.oid].get("elem") is not None and isinstance(s.heap[ch.oid]["elem"], Ref):
                         self._collect(entry, s.heap[ch.oid]["elem"], s, interp, h.children, h, seen)
